@@ -464,38 +464,10 @@ SwapEntry ==
 -----------------------------------------------------------------------------
 (* Totality of the StrictReader on adversarial bytes *)
 
-\* FileStructure!CheckRevision evaluates an XRef stream with 31-bit integer arithmetic (BEVal over the fields, count x row
-\* length, one sequence element per entry).  Outside that range the strict reading is "not ok"; it is decided here,
-\* before RdFile is asked.
-FieldBig(data, from, n) ==      \* the n-byte big-endian field starting at data[from] is >= 2^31
-    \/ \E i \in 0..(n - 5) : data[from + i] # 0
-    \/ (n >= 4 /\ data[from + n - 4] >= 128)
-XrefStreamOutOfRange(sv) ==
-    LET d == sv.v
-        w == IF Has(d, NameW) THEN SmallNats(d[NameW]) ELSE <<>>
-        size == IF Has(d, NameSize) /\ IntSmall(d[NameSize]) THEN IntVal(d[NameSize]) ELSE 0
-        index == IF Has(d, NameIndex) THEN SmallNats(d[NameIndex]) ELSE <<0, size>>
-    IN IF Len(w) # 3 \/ (Len(index) % 2) # 0 \/ index = <<>> THEN FALSE              \* CheckRevision rejects these itself
-       ELSE \/ \E i \in 1..3 : w[i] > 8
-            \/ Len(index) > 64
-            \/ \E i \in 1..Len(index) : index[i] > 100000
-            \/ LET rowlen == w[1] + w[2] + w[3]
-                   count == FoldLeft(LAMBDA acc, i : acc + index[2 * i], 0, [i \in 1..(Len(index) \div 2) |-> i])
-               IN /\ Len(sv.w) = count * rowlen
-                  /\ \E r \in 0..(count - 1) :
-                        \/ FieldBig(sv.w, r * rowlen + 1, w[1])
-                        \/ FieldBig(sv.w, r * rowlen + w[1] + 1, w[2])
-                        \/ FieldBig(sv.w, r * rowlen + w[1] + w[2] + 1, w[3])
-
-RdFileT(bytes) ==
-    LET h == FindFrom(bytes, PctPDF, 1) IN
-    IF h = 0 THEN RdFile(bytes)
-    ELSE LET rd == Read(SubSeq(bytes, h, Len(bytes)), FALSE) IN
-         IF rd.ok /\ \E i \in 1..Len(rd.items) :
-                        LET it == rd.items[i] IN
-                        it.it = "obj" /\ it.val.k = "stream" /\ TypeNameOf(it.val) = NameXRef /\ XrefStreamOutOfRange(it.val)
-         THEN [ok |-> FALSE, err |-> "XRef stream outside the reader's integer range"]
-         ELSE RdFile(bytes)
+\* RdFile must answer on every byte sequence.  (This check found FileStructure!CheckRevision leaving TLC's 31-bit
+\* integers on XRef streams with wide fields / huge Index counts; Bytes!BEVal now saturates and CheckRevision bounds
+\* W and Index, so no wrapper is needed any more.)
+RdFileT(bytes) == RdFile(bytes)
 
 \* what matters of a strict reading for the "semantically neutral" note
 RdSummary(bytes) ==
@@ -534,12 +506,13 @@ AInit ==
     /\ base = NoBase /\ mk = "" /\ nmut = 0 /\ round = 0 /\ mlog = <<>> /\ judge = NoRd
 
 \* one Producer step, the site log kept in parallel
+\* (Gen_File!Next: with work left on the stack it is a Producer step - FileNext or the choice of the knobs)
 AProduce ==
     /\ ph = "produce" /\ todo # <<>>
-    /\ FileNext
+    /\ Next
     /\ sites' = IF lex.c THEN sites ELSE sites \o StepSites(Top1, out, out', lex)
     /\ lex' = StepLex(Top1, lex)
-    /\ UNCHANGED <<di, fin, ph, ep, seed, adict, base, mk, nmut, round, mlog, judge>>
+    /\ UNCHANGED <<ph, ep, seed, adict, base, mk, nmut, round, mlog, judge>>
 
 \* the legal input is complete (Gen_File!Finish); real inputs get their sites from the lexical scan
 AFinish ==
